@@ -53,6 +53,7 @@ def main():
     ap.add_argument('module')
     ap.add_argument('-o', required=True)
     ap.add_argument('--spec', required=True)
+    ap.add_argument('--inits', default='')
     a = ap.parse_args()
     text = open(a.module).read()
     mod = parse_module(text)
@@ -139,8 +140,20 @@ def main():
                 out.extend(body)
                 out.append('}')
                 continue
+        if line.startswith('@llvm.global_ctors'):
+            # the replay runs exactly the dynamic initialisers that the model ran (see ir2c_global_init)
+            i += 1
+            continue
         out.append(line)
         i += 1
+    inits = [x for x in a.inits.split(',') if x]
+    out.append('define void @ir2c_global_init_native() {')
+    for n in inits:
+        hdr = [l for l in lines if l.startswith('define') and ('@%s(' % n in l or '@"%s"(' % n in l)]
+        cc = 'fastcc ' if hdr and ' fastcc ' in hdr[0] else ''
+        out.append('  call %svoid %s()' % (cc, gref(n)))
+    out.append('  ret void')
+    out.append('}')
     declared = set(mod.functions.keys())
     for d in sorted(set(extra_decl)):
         nm = re.search(r'@([\w.]+)\(', d).group(1)
